@@ -76,13 +76,22 @@ Inductive fwres := FwAccept | FwReject | FwDrop.
 
 (* one node: its ID, the services that have a live listener (listenerRegistry entries whose
    context is not cancelled; one socket per name), and its firewall as a first-match list of
-   rules keyed on the destination service (what the harness installs) *)
-Record node := mknode { nd_id : name; nd_bound : list name; nd_fw : list (name * fwres) }.
+   rules (what the harness installs through netceptor.ParseFirewallRules) *)
+(* a firewall rule as receptor's configuration writes it: any subset of the four address fields
+   (a plain string or a /regex/; for the literal names used here both mean "equal"), all given
+   fields must match; first matching rule decides *)
+Record fwrule := mkrule { r_fn : option name; r_tn : option name; r_fs : option name; r_ts : option name; r_res : fwres }.
+Record node := mknode { nd_id : name; nd_bound : list name; nd_fw : list fwrule }.
 
-Fixpoint fw_eval (rules : list (name * fwres)) (ts : name) : fwres :=
+Definition opt_match (o : option name) (x : name) : bool :=
+  match o with None => true | Some y => beq_bytes y x end.
+Definition rule_matches (r : fwrule) (p : pkt) : bool :=
+  opt_match (r_fn r) (p_fn p) && opt_match (r_tn r) (p_tn p) && opt_match (r_fs r) (p_fs p) && opt_match (r_ts r) (p_ts p).
+
+Fixpoint fw_eval (rules : list fwrule) (p : pkt) : fwres :=
   match rules with
   | [] => FwAccept
-  | (s, r) :: rest => if beq_bytes s ts then r else fw_eval rest ts
+  | r :: rest => if rule_matches r p then r_res r else fw_eval rest p
   end.
 
 Definition mem (s : name) (l : list name) : bool := existsb (beq_bytes s) l.
@@ -104,7 +113,7 @@ Inductive hout :=
 | HForward.                (* written to the next hop with one hop less *)
 
 Definition handle (nd : node) (hops : N) (p : pkt) : hout :=
-  match fw_eval (nd_fw nd) (p_ts p) with
+  match fw_eval (nd_fw nd) p with
   | FwDrop => HNothing
   | FwReject => if beq_bytes (p_fs p) S_UNREACH then HNothing else HNotice PRejected
   | FwAccept =>
